@@ -20,6 +20,15 @@ NOT_DECIDED = ["the client's view of timing", "behaviour of real upstream proxie
 
 
 def run(chk, prog):
+    # P-reply: the code that writes the success / failure reply cannot panic (panic = abort: the client would get no reply at all).
+    # Scope: every ContextCallback::on_connect / on_error implementation and what it calls.
+    from . import panics
+    roots = [f.key for f in prog.fns.values() if f.crate == "redproxy_rs" and re.search(r"as context::ContextCallback>::(on_connect|on_error)$", f.path)]
+    scope = set(k for k in prog.reachable_fns(roots) if prog.fns[k].crate == "redproxy_rs")
+    chk.floor("P-reply", len([k for k in roots]), 6, "reply callbacks (on_connect / on_error implementations)")
+    nrep = panics.evaluate_scope(chk, prog, scope, rule="P-reply",
+                                 consequence="aborts the process while the reply is written: the client sees the connection close without any reply")
+    chk.floor("P-reply", nrep, 5, "panic edges in the reply-writing code")
     pr = prog.body_of(prog.one(r"^process_request$"))
     where = "%s:%s" % (pr.file, pr.line)
     conn = [c for c in pr.calls if re.search(r"connectors::Connector::connect$", c.path or "")]
